@@ -8,7 +8,8 @@
   R-C09-builder          report_all_failed_clauses_for_rules, per record kind x status: a FAIL rule is listed exactly once and
                          unconditionally; FAIL containers are descended into (so the record variants the evaluator emits are all
                          handled); nothing is listed or descended for a record that is not FAIL (no failing check is attributed
-                         to a PASS/SKIP node); failure-only clause variants are constructed with FAIL only
+                         to a PASS/SKIP node); failure-only clause variants are constructed with FAIL only; binary_operation emits
+                         FAIL checks per element of the comparison's difference list, not per left-hand value
   R-C09-custom-message   every arm that builds Messages takes custom_message from the matched record
 Not claimed: the content of `checks` for arbitrary programs; rules sharing one name.
 """
